@@ -207,6 +207,35 @@ def build_assembly(cfg, values=None):
     return obs, assumptions, info
 
 
+def float_twin_noncontiguous():
+    from compmech.panel import Panel
+    lp = (142.5e9, 8.7e9, 0.28, 5.1e9, 5.1e9, 5.1e9)
+    rng = np.random.RandomState(5)
+    bad = []
+    for model, r in (('plate_clt_donnell_bardell', None), ('cpanel_clt_donnell_bardell', 0.8)):
+        p = Panel(a=1.2, b=0.7, r=r, stack=[0, 30, -45, 90], plyt=1.25e-4, laminaprop=lp, m=4, n=3)
+        p.model = model
+        p.calc_k0(silent=True)
+        size = p.get_size()
+        M = rng.rand(size, 3) * 1e-3
+        cview, ccopy = M[:, 1], M[:, 1].copy()
+        X = rng.rand(4, 5)
+        xs_v, ys_v = (X * p.a).T, (X[::-1] * p.b).T                  # transposed views: not C-contiguous
+        for what, fn in (('uvw', lambda c, xs, ys: dict(zip('uvwxy', p.uvw(c, xs=xs, ys=ys)))),
+                         ('strain', lambda c, xs, ys: p.strain(c, xs=xs, ys=ys, NLterms=False)),
+                         ('stress', lambda c, xs, ys: p.stress(c, xs=xs, ys=ys, NLterms=False))):
+            ref = fn(ccopy, np.ascontiguousarray(xs_v), np.ascontiguousarray(ys_v))
+            for tag, c_, xs_, ys_ in (('amplitudes', cview, np.ascontiguousarray(xs_v), np.ascontiguousarray(ys_v)), ('points', ccopy, xs_v, ys_v)):
+                got = fn(c_, xs_, ys_)
+                for k in ref:
+                    if k in ('x', 'y'):
+                        continue
+                    a_, b_ = np.asarray(got[k], dtype=float), np.asarray(ref[k], dtype=float)
+                    if a_.shape != b_.shape or not np.allclose(a_, b_, rtol=1e-10, atol=1e-12 * max(1., float(np.abs(b_).max()))):
+                        bad.append({'what': '%s/%s/%s/%s' % (model.split('_')[0], what, tag, k), 'max_difference': float(np.abs(a_ - b_).max()) if a_.shape == b_.shape else 'shape'})
+    return bad
+
+
 def configs(tier, seed):
     out = []
     quick = tier == 'quick'
@@ -270,6 +299,18 @@ def main():
     res = pmap(kprop.job, [(__name__, c) for c in cf])
     res = kprop.explore_loci(__name__, res, run)      # second pass: the equality loci the executed code branched on
     kprop.handle(run, res, build, 'field values differ from the series/kinematics')
+    # float twin on the compiled build (sampling, stated as such): amplitude vectors and point arrays that are float64 but NOT
+    # C-contiguous (a column of an eigenvector matrix, a strided slice) against their contiguous copies -- code that skips the
+    # conversion for arrays that "already are float64" takes a branch the symbolic run (dtype=object arrays) never sees
+    try:
+        tw = float_twin_noncontiguous()
+    except Exception as e:
+        tw = [{'error': '%s: %s' % (type(e).__name__, e)}]
+    run.extra['float_twin_noncontiguous_float64_inputs'] = {'mismatches': len(tw)}
+    if tw:
+        run.obligations += 1
+        run.violation('float-twin/non-contiguous-float64-input/%s' % tw[0].get('what', 'error'), 'results for a non-contiguous float64 input differ from those for its contiguous copy on the compiled build: %s' % (tw[:3],),
+                      {'mismatches': tw[:10], 'decided_by': 'float runs on the compiled build (no solver verdict for this branch)'})
     return run.finish()
 
 
